@@ -402,9 +402,9 @@ Proof.
   destruct a, b; cbn; try discriminate; auto; intros H; apply Z.eqb_eq in H; now subst.
 Qed.
 
-Theorem accepts_holds c : wf_b c = true -> accepts c = true -> holds c.
+Theorem snap_accepts_holds c : snap_wf_b c = true -> snap_accepts c = true -> snap_holds c.
 Proof.
-  unfold wf_b, accepts, holds, holds_b. intros HW HA.
+  unfold snap_wf_b, snap_accepts, snap_holds, snap_holds_b. intros HW HA.
   apply andb_true_iff in HW. destruct HW as [HW _].
   destruct (build (c_tree c)) as [sn|] eqn:HB; [|exfalso; now apply (build_total (c_tree c))].
   apply andb_true_iff in HA. destruct HA as [HA HP].
@@ -418,4 +418,11 @@ Proof.
     pose proof (res_eqb_eq _ _ H2) as ->. exact H1.
   - destruct (snap_node sn p); [exact HP|discriminate].
   - destruct (snap_node sn p); [exact HP|discriminate].
+Qed.
+
+(* every snapshot of the sequence *)
+Theorem accepts_holds c : wf_b c = true -> accepts c = true -> holds c.
+Proof.
+  unfold wf_b, accepts, holds, holds_b. rewrite !forallb_forall.
+  intros HW HA x HI. apply snap_accepts_holds; auto.
 Qed.
